@@ -44,10 +44,15 @@ class Prog:
         clash = [q for q in self.pkgs if q != pkg and self.pkgmap[q]["name"] == nm]
         if nm == "init":
             return "init" + "X" + pkg        # a package called init can only be imported under another name
+        if nm in PREDECLARED:
+            return nm + "X" + pkg            # the files of this program use the predeclared identifier themselves
         return nm if not clash else "%sX%s" % (nm, pkg)
 
     def path(self, pkg):
         return "%s/%s/%s" % (MOD, self.name, self.pkgmap[pkg]["dir"])
+
+
+PREDECLARED = ("copy", "len", "new", "append", "cap", "make", "string", "nil", "true", "error", "int")
 
 
 def sname(u, i):
@@ -691,6 +696,9 @@ def materialise(prog):
             files["%s/%s.go" % (pdir, pkg)] = "package %s\n\n%s\n%s\n" % (
                 pname, imports_for(prog, used, pkg, ["fmt", "github.com/google/wire", MOD + "/wtrace"]),
                 "\n\n".join(body)) + "\nvar _ = fmt.Sprint\nvar _ = wtrace.D\nvar _ wire.ProviderSet\n\n// Anchor lets drivers import this package unconditionally.\nvar Anchor = 0\n"
+        if inj_body and pkg == "app":
+            # declarations next to the injectors, which Wire copies into its output
+            inj_body += list(getattr(prog, "inj_helpers", []))
         if inj_body:
             nfiles = getattr(prog, "inj_files", 1)
             if nfiles <= 1 or len(inj_body) < 2:
